@@ -3,6 +3,7 @@ package props
 import (
 	"fmt"
 	"sort"
+	"strings"
 
 	"verif/plan"
 )
@@ -118,6 +119,25 @@ func sortRecs(h []plan.Rec) []plan.Rec {
 	out := append([]plan.Rec(nil), h...)
 	sort.SliceStable(out, func(i, j int) bool { return out[i].Inv < out[j].Inv })
 	return out
+}
+
+// stormTag marks a failed stabilisation during which the members kept opening connections to each
+// other at a rate no quiet cluster has (the harness appends member_dials_last_10s=<n> to the
+// error): requests bounce between members whose routing tables disagree and, with go-redis'
+// retries, keep every connection pool exhausted so that the routing push itself fails (known
+// finding "forwarding-storm"). Any other failed stabilisation carries no tag.
+func stormTag(err string) string {
+	const key = "member_dials_last_10s="
+	i := strings.Index(err, key)
+	if i < 0 {
+		return ""
+	}
+	n := 0
+	fmt.Sscanf(err[i+len(key):], "%d", &n)
+	if n >= 50 {
+		return " forwarding-storm"
+	}
+	return ""
 }
 
 func fpKey(res *plan.Result) string { return fmt.Sprintf("%x", res.Fingerprint) }
